@@ -101,6 +101,11 @@ def ahost(value):
         for (sch, pc), p in X.PORTS.items():
             if pc == 'alt' and value == '%s:%d' % (name, p):
                 return [h, 'alt', sch]
+        # an explicit port that is the default of the other scheme is a non-default port of this URL
+        if value == '%s:443' % name:
+            return [h, 'alt', 'http']
+        if value == '%s:80' % name:
+            return [h, 'alt', 'https']
     return ['?', value]
 
 
@@ -113,6 +118,12 @@ def annotate(sc, ev):
         e = dict(e)
         if e['e'] == 'send':
             e['exp'] = expected(cur)
+            pn = e.pop('pn', None)
+            if pn in (80, 443) and e['at']['host'] != 'proxy':
+                # the in-memory network has no TLS: a listener port shared by "http on 443" and "https on 443" is
+                # read relative to the scheme of the URL being fetched
+                sch = e['exp']['scheme']
+                e['at'] = dict(e['at'], scheme=sch, port='def' if pn == {'http': 80, 'https': 443}[sch] else 'alt')
             e['curl'] = e.pop('url') or {'host': '?'}
             e['ahosts'] = [ahost(v) for v in e['hosts']]
             e.pop('_authv', None)
